@@ -47,7 +47,7 @@ type InSitu struct {
 
 type sortEigenvaluesType struct {
   v Vector
-  p []int
+  m Matrix
 }
 
 func (obj sortEigenvaluesType) Len() int {
@@ -60,16 +60,10 @@ func (obj sortEigenvaluesType) Less(i, j int) bool {
 
 func (obj sortEigenvaluesType) Swap(i, j int) {
   obj.v.Swap(i, j)
-  obj.p[i], obj.p[j] = obj.p[j], obj.p[i]
-}
-
-func sortEigenvalues(v Vector) []int {
-  p := make([]int, v.Dim())
-  for i := 0; i < len(p); i++ {
-    p[i] = i
+  // keep the eigenvectors aligned with the eigenvalues
+  if obj.m != nil {
+    obj.m.SwapColumns(i, j)
   }
-  sort.Sort(sort.Reverse(sortEigenvaluesType{v, p}))
-  return p
 }
 
 /* -------------------------------------------------------------------------- */
@@ -138,12 +132,7 @@ func getEigenvectors(eigenvectors Matrix, eigenvalues Vector, h, u Matrix, b Vec
 }
 
 func sortEigensystem(eigenvectors Matrix, eigenvalues Vector) {
-  if eigenvectors == nil {
-    sortEigenvalues(eigenvalues)
-  } else {
-    p := sortEigenvalues(eigenvalues)
-    eigenvectors.PermuteColumns(p)
-  }
+  sort.Sort(sort.Reverse(sortEigenvaluesType{eigenvalues, eigenvectors}))
 }
 
 /* -------------------------------------------------------------------------- */
